@@ -63,8 +63,10 @@ CHECKS = {
              "C04_release_and_tree_read_back (whatever the reader returns for a table the writer produced carries the written release "
              "name/short/version/is_layered and the tree's arch, platform set and integer timestamp), C04_integer_timestamp_read_back (any size: "
              "int(str(z)) = z is proved), C04_stage2_read_back, C04_media_read_back, C04_checksums_read_back (every path gets exactly the "
-             "algorithm/value typed from its own text, no foreign path appears); C17_general_mirror covers "
-             "[general]. That the reader succeeds, and the variant and image sections, are decided by the "
+             "algorithm/value typed from its own text, no foreign path appears), C04_image_tables_are_read_back (every platform's table "
+             "comes back with exactly its (name, path) entries and no other platform appears, for platforms not spelled '<x>-<arch>'; "
+             "uses C04_written_section_names_are_distinct, also proved); C17_general_mirror covers "
+             "[general]. That the reader succeeds, and the variant sections, are decided by the "
              "docs_treeinfo correspondence: model "
              "writer vs real writer byte for byte; the section table the real parser produces from the written text is loaded by "
              "the model reader and compared with the re-read object; implementation-side oracle compares every fact and the "
